@@ -118,16 +118,16 @@ def run(res, replay=None):
                                    ('branch length mean', bm, l_mean, 1), ('branch length var', bv, l_var, l_mean ** 2)):
                 if a is None or b is None:
                     continue
-                if abs(a - b) > 1e-6 * max(abs(a), abs(b), sc):
+                if C.gt(abs(a - b), 1e-6 * max(abs(a), abs(b), sc)):
                     res.violation(f'locus {l} marginal {name} is not the single-locus value',
                                   {'spec': it['spec'], 'locus': l, 'two_locus': a, 'single_locus': b})
         cov = vals[10]
         if cov is not None:
-            if abs(cov[0][1] - cov[1][0]) > 1e-9 * max(1.0, abs(cov[0][0])):
+            if C.gt(abs(cov[0][1] - cov[1][0]), 1e-9 * max(1.0, abs(cov[0][0]))):
                 res.violation('locus covariance matrix is not symmetric', {'spec': it['spec'], 'cov': cov})
             if it['spec']['recombination_rate'] == 0 and it['spec'].get('n_unlinked', 0) == 0 and cov[0][0] > 1e-9:
                 corr = cov[0][1] / (cov[0][0] * cov[1][1]) ** 0.5
-                if abs(corr - 1) > 1e-6:
+                if C.gt(abs(corr - 1), 1e-6):
                     res.violation('at r = 0 with all lineages linked the two trees do not coincide (corr != 1)',
                                   {'spec': it['spec'], 'corr': corr, 'cov': cov})
     # configuration objects shared between Coalescents of different sample size (n_unlinked larger than the sample = all unlinked)
@@ -142,7 +142,7 @@ def run(res, replay=None):
     covs = [o['results'][0]['values'][0][0][1] if 'error' not in o['results'][0] and o['results'][0]['values'][0] else None for o in couts]
     res.count('cov-decay')
     if all(c is not None for c in covs):
-        if any(b > a + 1e-9 for a, b in zip(covs, covs[1:])) or abs(covs[-1]) > 2e-3 * abs(covs[0]):
+        if any(b > a + 1e-9 for a, b in zip(covs, covs[1:])) or C.gt(abs(covs[-1]), 2e-3 * abs(covs[0])):
             res.violation('covariance between loci does not decay to 0 as r grows', {'spec': base, 'r': rs, 'cov01': covs})
     res.extra['input_distribution'] = {'r': sorted(s['recombination_rate'] for s in specs),
                                        'n_unlinked': sorted(s.get('n_unlinked', 0) for s in specs),
